@@ -15,15 +15,20 @@ type Val struct {
 	L []Val
 }
 
-func B(b []byte) Val      { trackOutput(b); return Val{K: 'x', B: append([]byte{}, b...)} }
-func S(s string) Val      { return Val{K: 'x', B: []byte(s)} }
-func I(i int64) Val       { return Val{K: 'n', N: big.NewInt(i)} }
-func U(u uint64) Val      { return Val{K: 'n', N: new(big.Int).SetUint64(u)} }
-func Big(b *big.Int) Val  { return Val{K: 'n', N: new(big.Int).Set(b)} }
-func L(vs ...Val) Val     { return Val{K: 'l', L: append([]Val{}, vs...)} }
-func Bool(b bool) Val     { if b { return I(1) }; return I(0) }
-func VErr() Val           { return Val{K: 'E'} }
-func VPanic() Val         { return Val{K: 'P'} }
+func B(b []byte) Val     { trackOutput(b); return Val{K: 'x', B: append([]byte{}, b...)} }
+func S(s string) Val     { return Val{K: 'x', B: []byte(s)} }
+func I(i int64) Val      { return Val{K: 'n', N: big.NewInt(i)} }
+func U(u uint64) Val     { return Val{K: 'n', N: new(big.Int).SetUint64(u)} }
+func Big(b *big.Int) Val { return Val{K: 'n', N: new(big.Int).Set(b)} }
+func L(vs ...Val) Val    { return Val{K: 'l', L: append([]Val{}, vs...)} }
+func Bool(b bool) Val {
+	if b {
+		return I(1)
+	}
+	return I(0)
+}
+func VErr() Val   { return Val{K: 'E'} }
+func VPanic() Val { return Val{K: 'P'} }
 
 func (v Val) String() string {
 	switch v.K {
